@@ -62,7 +62,7 @@ def record(tw, rng, n, stats, probe_cap=60):
         tr = tw.new()
         tr.append(dict(ev="Mix", **mix_desc(m, raoult)))
         for model in ("NRTL", "UNIQUAC"):
-            T = rng.uniform(273.0, 400.0)
+            T = gen.some_temperature(rng)
             x = gen.fraction(rng, ends=False) if rng.random() < 0.8 else rng.choice([gen.logu(rng, 1e-4, 1e-2), 1 - gen.logu(rng, 1e-4, 1e-2)])
             h = min(2e-4, x / 50, (1 - x) / 50)
             pts = [x - 2 * h, x - h, x, x + h, x + 2 * h]
